@@ -8,6 +8,7 @@ mod c10;
 mod c11;
 mod c12;
 mod c13;
+mod c15;
 mod common;
 
 use vmon::shard::Args;
@@ -27,6 +28,7 @@ fn main() {
         "c11" => c11::run(&a),
         "c12" => c12::run(&a),
         "c13" => c13::run(&a),
+        "c15" => c15::run(&a),
         other => {
             eprintln!("unknown sub-command {other}");
             std::process::exit(3);
